@@ -411,6 +411,11 @@ private:
   // (CONNECTED / DISCONNECTED / CLOSED) before treating the attempt as failed.
   static constexpr std::chrono::milliseconds kHandshakeSettleTimeout{10000};
 
+  // Most bytes of an unterminated HTTP upgrade response (status line + headers,
+  // no "\r\n\r\n" yet) the client keeps before failing the handshake — the same
+  // bound HttpServer puts on request headers (SessionInfo::MAX_HEADER_SIZE).
+  static constexpr std::size_t kMaxUpgradeResponseSize = 64 * 1024;
+
   /// \brief The reconnect worker loop. Static (captures NO raw this): it holds a
   /// weak_ptr<WebSocketClient> and a STRONG shared_ptr<ReconnectControl>, and
   /// promotes `self` per attempt. MANDATORY ORDER (F-C4 — headline invariant):
@@ -702,10 +707,24 @@ private:
     // Step 2: Parse HTTP upgrade response (if not yet completed)
     if (!_upgradeComplete.load())
     {
+      // A handshake that has failed stays failed: the engine keeps delivering what
+      // the peer sends until connect()/the worker tears the transport down — drop it.
+      if (_state.load() != WebSocketState::CONNECTING) return;
+
       std::string response(localBuffer.begin(), localBuffer.end());
       auto headerEnd = response.find("\r\n\r\n");
       if (headerEnd == std::string::npos)
       {
+        // A peer that never terminates its response headers must not make the
+        // client buffer (and re-scan) without bound: fail the handshake like the
+        // other upgrade failures below; the bytes are dropped.
+        if (localBuffer.size() > kMaxUpgradeResponseSize)
+        {
+          setState(WebSocketState::DISCONNECTED);
+          if (_onError) _onError("Upgrade failed: response headers exceed 64KB");
+          return;
+        }
+
         // Incomplete — put back
         std::lock_guard<std::mutex> lock(_dataMutex);
         _buffer.insert(_buffer.begin(), localBuffer.begin(), localBuffer.end());
